@@ -181,7 +181,7 @@ func LoopShapes(r *core.Rng, n int) []byte {
 		}
 		return out[:n]
 	}
-	switch r.Intn(22) {
+	switch r.Intn(25) {
 	case 0: // non-SOI marker first
 		return append([]byte{0xFF, 0xE0, 0x00, 0x10}, rep([]byte{0x4A, 0x46}, n)...)
 	case 1: // SOI EOI then marker
@@ -239,6 +239,27 @@ func LoopShapes(r *core.Rng, n int) []byte {
 		return []byte("<x:xmpmeta xmlns:x='adobe:ns:meta/'><rdf:RDF><rdf:Description rdf:about='" + strings.Repeat("a", n))
 	case 20: // deep nesting
 		return []byte("<x:xmpmeta xmlns:x='adobe:ns:meta/'>" + strings.Repeat("<a:b>", n/5) + "</x:xmpmeta>")
+	case 21: // APP1 segments the scanner knows by name and does not read (Extended XMP), others it does not know
+		pre := r.PickStr("http://ns.adobe.com/xmp/extension/\x00", "http://ns.adobe.com/xmp/extension/\x00", "http://ns.adobe.com/xap/1.0/se", "Exif\x00", "XMP\x00")
+		body := append([]byte(pre), rep([]byte("0123456789ABCDEF"), r.Pick(0, 40, 900))...)
+		seg := append([]byte{0xFF, 0xE1, byte((len(body) + 2) >> 8), byte(len(body) + 2)}, body...)
+		return append([]byte{0xFF, 0xD8}, rep(seg, n)...)
+	case 22: // PNG whose eXIf chunks are not TIFF data, of every short length
+		b := append([]byte("\x89PNG\r\n\x1a\n"), 0, 0, 0, 13, 'I', 'H', 'D', 'R', 0, 0, 0, 1, 0, 0, 0, 1, 8, 0, 0, 0, 0, 0, 0, 0, 0)
+		for len(b) < n {
+			l := r.Pick(0, 1, 2, 3, 4, 4, 5, 8, 12, 17)
+			b = append(b, 0, 0, 0, byte(l), 'e', 'X', 'I', 'f')
+			b = append(b, rep([]byte("abcd"), l)...)
+			b = append(b, 0, 0, 0, 0)
+		}
+		return b
+	case 23: // JPEG: SOI nested twice, then frame / table segments without any quantisation table
+		b := []byte{0xFF, 0xD8, 0xFF, 0xD8}
+		for len(b) < n {
+			m := byte(r.Pick(0xC0, 0xC3, 0xC4, 0xC8, 0xCC, 0xC1))
+			b = append(b, 0xFF, m, 0, 11, 8, 0, 1, 0, 1, 1, 1, 0x11, 0)
+		}
+		return b
 	default: // many '<' characters
 		return []byte(strings.Repeat("<", n/2) + "<x:xmpmeta " + strings.Repeat("<x:", n/6))
 	}
